@@ -14,6 +14,7 @@ from common import Violation, sexp, Atom, parse_sexp
 
 TITLE = "cardinality encoders"
 LEVEL = "proof"
+DOMAINS = ['Card']
 
 REL = {"EQ": lambda c, k: c == k, "LT": lambda c, k: c < k, "GT": lambda c, k: c > k}
 
